@@ -102,6 +102,7 @@ func init() {
 			out = append(out, &vexplore.Scenario{Name: fmt.Sprintf("%s-hub-membership-hist-D%d", k.n, hd), Mode: "hist", Reset: kit.ResetGlobals, Body: func() { hubMembership(k.n, k.c, hd) },
 				NeedCounters: []string{"member-replaced-between-two-messages-of-one-peer", "delivered-to-every-other-member"}})
 		}
+		out = append(out, &vexplore.Scenario{Name: "receive-queue-length-set-with-members-attached", Mode: "sched", Bound: b, Reset: kit.ResetGlobals, Body: resizeAttached})
 		out = append(out, &vexplore.Scenario{Name: "member-leaves-while-the-hub-is-sending-to-it", Mode: "sched", Bound: b, Reset: kit.ResetGlobals, Body: memberLeavesMidSend})
 		out = append(out, &vexplore.Scenario{Name: "xstar-raw-forward", Mode: "sched", Bound: b, Reset: kit.ResetGlobals, Body: xstarRaw})
 		return out
@@ -846,6 +847,65 @@ func memberLeavesMidSend() {
 		_ = ms[1].Close()
 	})
 	kit.Quiesce()
+}
+
+// resizeAttached: the receive queue length of a BUS / STAR socket (cooked or raw) is set again while
+// its two peers are attached and idle (same value, smaller, larger; once or twice).  Afterwards each
+// peer sends a message: the application receives each exactly once, and a STAR hub still passes
+// each on to the other peer.  Which branch of a receiver's select is taken is a scheduling
+// decision: all interleavings within the bound.
+func resizeAttached() {
+	ki := kit.ChooseFree(4)
+	c := []ctor{bus.NewSocket, xbus.NewSocket, star.NewSocket, xstar.NewSocket}[ki]
+	name := []string{"bus", "xbus", "star", "xstar"}[ki]
+	isStar := ki >= 2
+	q := []int{128, 2, 300}[kit.ChooseFree(3)]
+	times := 1 + kit.ChooseFree(2)
+	s, err := c()
+	must(err, "NewSocket")
+	ep := vt.Get("c08rs")
+	must(s.Listen("vt://c08rs"), "Listen")
+	pipes := []*vt.Pipe{ep.Connect(), ep.Connect()}
+	kit.Quiesce()
+	for i := 0; i < times; i++ {
+		kit.Must("SetOption(ReadQLen)", func() { must(s.SetOption(mangos.OptionReadQLen, q), "ReadQLen") })
+	}
+	want := map[string]int{}
+	for i, p := range pipes {
+		body := fmt.Sprintf("after-resize-%d", i)
+		want[body] = 0
+		if isStar {
+			p.Deliver(append([]byte{0, 0, 0, 1}, body...))
+		} else {
+			p.Deliver([]byte(body))
+		}
+	}
+	for i := 0; i < len(pipes); i++ {
+		rc := kit.Start("Recv", func() (interface{}, error) { b, err := kit.Recv(s); return string(b), err })
+		kit.Quiesce()
+		if !rc.Done() || rc.Err != nil {
+			kit.Failf("lost-after-resize:"+name, "%s: ReadQLen set to %d (%dx) with two idle peers attached, then each sent one message: Recv %d done=%v %s - a message went astray", name, q, times, i, rc.Done(), kit.ErrName(rc.Err))
+		}
+		b := rc.Val.(string)
+		if n, ok := want[b]; !ok || n > 0 {
+			kit.Failf("wrong-after-resize:"+name, "%s: received %q (expected each peer's message once)", name, b)
+		}
+		want[b]++
+	}
+	for i, p := range pipes {
+		if !p.Alive() {
+			kit.Failf("detached-by-resize:"+name, "%s: peer %d was disconnected", name, i)
+		}
+		if isStar {
+			l := p.SentLog()
+			other := fmt.Sprintf("after-resize-%d", 1-i)
+			if len(l) != 1 || string(l[0].Data[4:]) != other {
+				kit.Failf("not-forwarded-after-resize:"+name, "%s: peer %d was passed %d message(s), want exactly the other peer's", name, i, len(l))
+			}
+		}
+	}
+	kit.Observe("%s q=%d x%d", name, q, times)
+	kit.Must("Close", func() { _ = s.Close() })
 }
 
 // onceAfterReconnect: Y listens, X and Z dial it (BUS mesh through Y, or STAR with Y as the hub).
